@@ -311,8 +311,8 @@ impl AsDeliveryState for Option<DeliveryState> {
 pub(crate) struct Sealed {}
 
 pub(crate) fn is_consecutive(left: &DeliveryNumber, right: &DeliveryNumber) -> bool {
-    // Assume ascending order
-    right - left == 1
+    // Assume ascending order. Delivery numbers are serial numbers: the successor of u32::MAX is 0
+    right.wrapping_sub(*left) == 1
 }
 
 #[cfg(test)]
